@@ -20,8 +20,15 @@ extern int mpt_parse_option(const MPT_STRUCT(parser_format) *fmt, MPT_STRUCT(par
 {
 	int curr;
 	
+	/* name was started by caller: next character belongs to it as it is */
+	if (parse->valid) {
+		curr = mpt_parse_getchar(&parse->src, 0);
+	}
 	/* get next visible character, no save */
-	if ((curr = mpt_parse_nextvis(&parse->src, fmt->com, sizeof(fmt->com))) < 0) {
+	else {
+		curr = mpt_parse_nextvis(&parse->src, fmt->com, sizeof(fmt->com));
+	}
+	if (curr < 0) {
 		parse->curr = parse->valid ? (MPT_PARSEFLAG(Option) | MPT_PARSEFLAG(Name)) : MPT_PARSEFLAG(Option);
 		if (curr != -2) {
 			return MPT_ERROR(BadArgument);
